@@ -118,8 +118,32 @@ End Program.
 (* table checks over the finite generated `programs` / `externals` tables *)
 Definition raw_setenv_free (p : program) : bool :=
   forallb (fun b => match b with BSetEnvRaw _ => false | _ => true end) (p_body p).
-Definition outermost_is_tmpdir (p : program) : bool :=
-  match p_stack p with DTmpDir _ _ :: _ => true | _ => false end.
+(* wrappers that never touch cwd / directories / files: state passes through them *)
+Definition transparent (w : wrapper) : bool := match w with WEnv _ | WConfig => true | _ => false end.
+
+(* shape of an execute closure's stack: run_in_tmp_environment layers (if any) OUTSIDE, then work_in_tmp_dir,
+   then anything.  (The order of the two decorators of XTB / MOPAC is immaterial for the property.) *)
+Fixpoint split_stack (st : list deco) : option (list deco * (option (list string) * bool) * list deco) :=
+  match st with
+  | DTmpDir k ll :: r => Some ([], (k, ll), r)
+  | DEnv ks :: r => match split_stack r with
+                    | Some (pre, x, post) => Some (DEnv ks :: pre, x, post)
+                    | None => None end
+  | _ => None
+  end.
+Definition stack_ok (p : program) : bool := match split_stack (p_stack p) with Some _ => true | None => false end.
+Definition prog_ll (p : program) : bool :=
+  match split_stack (p_stack p) with Some (_, (_, ll), _) => ll | None => false end.
+Definition prog_kept (rt : runtime) (p : program) : list string :=
+  match split_stack (p_stack p) with
+  | Some (_, (Some l, _), _) => l
+  | Some (_, (None, _), _) => r_kept_cfg rt
+  | None => [] end.
+(* what runs inside the scratch directory: the decorators below work_in_tmp_dir around the closure body *)
+Definition prog_inner (rt : runtime) (external : callee_t) (p : program) : callee_t :=
+  match split_stack (p_stack p) with
+  | Some (_, _, post) => run_stack (map (wrapper_of_deco rt) post) (exec_body rt external (p_body p))
+  | None => exec_body rt external (p_body p) end.
 Definition externals_guarded (p : program) : bool :=
   forallb (fun b => match b with
                     | BExternal e => match lookup_ext e externals with Some (DMem :: _) => true | _ => false end
